@@ -82,6 +82,8 @@ func main() {
 			usage()
 		}
 		os.Exit(runReplay(os.Args[2]))
+	case "scan":
+		os.Exit(runScan(os.Args[2:]))
 	case "list":
 		ids := make([]string, 0, len(registry))
 		for id := range registry {
@@ -92,6 +94,71 @@ func main() {
 	default:
 		usage()
 	}
+}
+
+// scan mode (development aid used by tools/fp_check.sh and tools/refresh_seeds.py): the tree is
+// loaded once and the quick rules of every named property are run on it; one line per property,
+// no evidence is written. Registered checks never use it.
+var (
+	scanMode   bool
+	worldCache = map[string]*World{}
+)
+
+func runScan(ids []string) int {
+	scanMode = true
+	known, kerr := loadKnown()
+	rc := 0
+	for _, id := range ids {
+		prop := registry[id]
+		if prop == nil {
+			fmt.Printf("%s ERROR unknown property\n", id)
+			rc = 2
+			continue
+		}
+		obls, _, err := runRules(prop, "quick")
+		if err != nil || kerr != nil {
+			fmt.Printf("%s ERROR %v %v\n", id, err, kerr)
+			rc = 2
+			continue
+		}
+		openKnown := map[string]bool{}
+		for _, k := range known {
+			if k.Property == id && k.Status == "open" {
+				openKnown[k.Key] = true
+			}
+		}
+		var bad []Obligation
+		for _, o := range obls {
+			switch o.Verdict {
+			case VInfo, VOK:
+			case VViolation:
+				if !openKnown[o.Key] {
+					bad = append(bad, o)
+				}
+			default:
+				bad = append(bad, o)
+			}
+		}
+		if len(bad) == 0 {
+			fmt.Printf("%s quiet\n", id)
+			continue
+		}
+		if rc == 0 {
+			rc = 1
+		}
+		fmt.Printf("%s ALARM %d\n", id, len(bad))
+		for i, o := range bad {
+			if i == 3 {
+				break
+			}
+			r := o.Reason
+			if len(r) > 260 {
+				r = r[:260]
+			}
+			fmt.Printf("  %s %s at %s: %s\n", strings.ToUpper(o.Verdict), o.Key, o.Pos, r)
+		}
+	}
+	return rc
 }
 
 func usage() {
@@ -124,9 +191,18 @@ func runRules(prop *Property, tier string) (obls []Obligation, stats map[string]
 	var pkgCount []string
 	for i, tags := range tagSets(tier) {
 		var w *World
-		w, err = Load(repoDir(), tags)
-		if err != nil {
-			return nil, nil, err
+		if cached := worldCache[tags]; cached != nil {
+			// scan mode: one load serves every property; per-run state is reset
+			w = cached
+			w.Obls, w.FuncsSeen, w.CallSites, w.curRule = nil, map[string]bool{}, 0, ""
+		} else {
+			w, err = Load(repoDir(), tags)
+			if err != nil {
+				return nil, nil, err
+			}
+			if scanMode {
+				worldCache[tags] = w
+			}
 		}
 		func() {
 			defer func() {
